@@ -114,11 +114,14 @@ func propC20(c *ctx) error {
 			isLit []bool
 		}
 		var prevCalls []prevCall
+		var allBlocks []string // every ${ } block of every file, in order (what the extraction model is given)
 		for f := 0; f < nfiles; f++ {
 			fname := []string{"a.html", "sub/b.html", "c.html"}[f]
 			var sb strings.Builder
 			lines := 1 + r.n(5)
-			for ln := 1; ln <= lines; ln++ {
+			curLine := 1
+			for li := 1; li <= lines; li++ {
+				ln := curLine
 				kw := kws[r.n(len(kws))]
 				if r.p(10) {
 					kw = kwSpec{"other", 0, 1, 0} // not a keyword
@@ -179,7 +182,9 @@ func propC20(c *ctx) error {
 					callee = "(" + kw.name + ")"
 				}
 				call := callee + "(" + strings.Join(args, ", ") + ")"
-				pre := r.pick([]string{"", "x ", "prefix: "})
+				// literal text and EARLIER ${} blocks (without keyword calls) in front of the block that holds the call,
+				// also across a line break inside the attribute value
+				pre := r.pick([]string{"", "x ", "prefix: ", "${name} - ", "${1 + 2}${'s'} ", "a\n  b ", "${name}\n${'x'} "})
 				line := `<p ` + ap + r.pick([]string{"text", "title", "data-x"}) + `="` + pre + `${` + call + `}">o</p>`
 				// expectation
 				enough := kw.name != "other" && kw.max() <= nargs && kw.id >= 1
@@ -196,8 +201,7 @@ func propC20(c *ctx) error {
 					for a := 0; a < kw.id-1; a++ {
 						off += len(args[a]) + 2
 					}
-					col := len([]rune(line[:off])) + 1
-					e.ref = fmt.Sprintf("%s:%d:%d", fname, ln, col)
+					e.ref = c20Ref(fname, ln, line, off)
 					want = append(want, e)
 					rtCalls = append(rtCalls, kw.name+"|"+e.ctx+"|"+e.id+"|"+e.plural)
 				}
@@ -209,11 +213,22 @@ func propC20(c *ctx) error {
 							break
 						}
 						off := from + k + 2
-						want = append(want, exp{id: "inner", ref: fmt.Sprintf("%s:%d:%d", fname, ln, len([]rune(line[:off]))+1)})
+						want = append(want, exp{id: "inner", ref: c20Ref(fname, ln, line, off)})
 						from = off
 					}
 				}
+				for rest := pre; ; {
+					a := strings.Index(rest, "${")
+					if a < 0 {
+						break
+					}
+					b := strings.Index(rest[a:], "}")
+					allBlocks = append(allBlocks, rest[a+2:a+b])
+					rest = rest[a+b+1:]
+				}
+				allBlocks = append(allBlocks, call)
 				sb.WriteString(line + "\n")
+				curLine += 1 + strings.Count(line, "\n")
 			}
 			os.WriteFile(filepath.Join(dir, fname), []byte(sb.String()), 0o644)
 			rcFiles = append(rcFiles, [2]string{fname, sb.String()})
@@ -337,14 +352,7 @@ func propC20(c *ctx) error {
 		}
 		// ---- correspondence with the Lean extraction model (XT.extractMany / XT.catalogue) over the same blocks
 		if c.d != nil {
-			var blocks []string
-			for _, f := range rcFiles {
-				for _, line := range strings.Split(f[1], "\n") {
-					if i := strings.Index(line, "${"); i >= 0 {
-						blocks = append(blocks, line[i+2:strings.LastIndex(line, "}\">")])
-					}
-				}
-			}
+			blocks := allBlocks
 			flag := kwFlag
 			if flag == "" {
 				flag = "T;N:1,2;N64:1,2;X:1c,2;XN:1c,2,3;XN64:1c,2,3;__;_n:1,2;_x:1c,2;_xn:1c,2,3"
@@ -383,4 +391,14 @@ func propC20(c *ctx) error {
 		res.count(fmt.Sprintf("entries_%d", min(len(wantMap), 6)))
 	}
 	return nil
+}
+
+// c20Ref: file:line:column of byte offset off in an element that starts on line ln (columns count runes from 1)
+func c20Ref(fname string, ln int, line string, off int) string {
+	before := line[:off]
+	ln += strings.Count(before, "\n")
+	if k := strings.LastIndex(before, "\n"); k >= 0 {
+		before = before[k+1:]
+	}
+	return fmt.Sprintf("%s:%d:%d", fname, ln, len([]rune(before))+1)
 }
